@@ -16,6 +16,8 @@ type lazyHavocRec struct {
 	alloc   *Term
 	// only: the one address that was written ("assigns T@param"); every other cell is kept
 	only *Term
+	// prefixOnly: pat is a key prefix (not a substring)
+	prefixOnly bool
 }
 
 func (x *Exec) onFuncEntry(fr *Frame, st *State, ctx *FuncCtx)                 {}
